@@ -5,6 +5,7 @@ real file, retrieved with sigtools.signature and *executed* on every
 non-colliding call shape the reported signature accepts."""
 import itertools
 
+import sigtools
 from sigtools import signatures as S
 
 from vf import space, alg, runner, grammar, discovery, slices
@@ -159,8 +160,101 @@ def eval_prog(ld, st):
     st.inc('executed_programs')
 
 
+SPECIAL_SRC = '''
+def SP_inner(x, y):
+    return x
+
+
+def SP_other(p, q):
+    return p
+
+
+def SP_default_lambda(*a, cb=lambda *a, **k: SP_inner(*a, **k), **k):
+    return SP_other(*a, **k)
+
+
+SP_lambda_in_def_line = SP_default_lambda.__kwdefaults__['cb']
+
+
+def SP_after_star(*args, **kwargs):
+    return SP_inner(*args, 1, **kwargs)
+
+
+def SP_two_lambdas():
+    return [lambda *a, **k: SP_inner(*a, **k), lambda *a, **k: SP_other(*a, **k)]
+
+
+SP_first_of_two, SP_second_of_two = SP_two_lambdas()
+
+
+class SP_K(object):
+    def noself(*args, **kwargs):
+        return SP_inner(*args, **kwargs)
+
+    def m(self, *args, **kwargs):
+        return (lambda *a, **k: SP_inner(*a, **k))(*args, **kwargs)
+'''
+SPECIAL = ('SP_default_lambda', 'SP_lambda_in_def_line', 'SP_after_star', 'SP_first_of_two', 'SP_second_of_two',
+           'SP_K().noself', 'SP_K().m')
+
+
+def eval_special(st):
+    """Hand-written forwarders outside the grammar (lambdas sharing a source line with other code, a positional written
+    after *args, a method that keeps its instance in *args): the same claim, acceptance decided by inspect's own bind."""
+    from vf import progs
+    batch = progs.Batch(prelude='')
+    batch.add(SPECIAL_SRC, 10)
+    batch.load()
+    names = ('x', 'y', 'p', 'q', 'zz')
+    try:
+        for expr in SPECIAL:
+            obj = eval(expr, vars(batch.modules[0]))
+            st.inc('states')
+            try:
+                sig = sigtools.signature(obj)
+                pl = S.signature(obj)
+            except Exception:  # noqa: totality is C07's
+                st.inc('retrieval-raised(C07/C15)')
+                continue
+            if alg.params_key(sig) == alg.params_key(pl):
+                st.inc('fallback_or_unchanged')
+                continue
+            n_exec = 0
+            for n in range(4):
+                for r in range(3):
+                    for K in itertools.combinations(names, r):
+                        a, k = (0,) * n, dict((nm, 0) for nm in K)
+                        try:
+                            sig.bind(*a, **k)
+                        except TypeError:
+                            continue
+                        n_exec += 1
+                        try:
+                            obj(*a, **k)
+                        except TypeError as e:
+                            st.violation('accepted-call-raises-TypeError', {'special': expr},
+                                         {'program': SPECIAL_SRC, 'object': expr, 'reported': str(sig), 'plain': str(pl),
+                                          'call': {'positionals': n, 'keywords': sorted(K)}, 'error': str(e)[:200]},
+                                         {'context': 'special', 'route': expr, 'taint': None})
+                            break
+                    else:
+                        continue
+                    break
+                else:
+                    continue
+                break
+            st.inc('transitions', n_exec)
+            st.inc('executed_programs')
+    finally:
+        batch.close()
+
+
 def shard(tier, sh):
     name, i0, i1 = sh
+    if name == 'special':
+        st = runner.Stats()
+        eval_special(st)
+        return st
     plist = dict(slices.all_slices(tier))[name][i0:i1]
     st = runner.Stats()
     batch, loaded = discovery.load(plist, uid_base=i0)
@@ -178,7 +272,7 @@ def shard(tier, sh):
 
 
 def shards(tier):
-    out = []
+    out = [('special', 0, 0)]
     for name, plist in slices.all_slices(tier):
         for i in range(0, len(plist), CHUNK):
             out.append((name, i, min(len(plist), i + CHUNK)))
@@ -217,8 +311,11 @@ def run(tier, seed):
 
 
 def replay(art):
-    pr = grammar.from_json(art['case']['program'])
     st = runner.Stats()
+    if 'special' in art['case']:
+        eval_special(st)
+        return [v['detail'] for v in st.viol if v['case'] == art['case']] or None
+    pr = grammar.from_json(art['case']['program'])
     batch, loaded = discovery.load([pr])
     try:
         eval_prog(loaded[0], st)
